@@ -194,6 +194,7 @@ class Walker:
         self.hash_sites: List[str] = []
         self.local_defs: Dict[str, ast.FunctionDef] = {}
         self.touched: set = set()       # section path + key that the normaliser reads or writes by name
+        self.live: Dict[Tuple[str, str], List[dict]] = {}   # (section var, key) -> numeric rules checked on that cell
         self.mod = mod
 
     # -- constants ---------------------------------------------------------
@@ -478,7 +479,21 @@ class Walker:
                     return Loc("merged", ())
         return None
 
+    def finalize(self, name: Optional[str] = None):
+        """For cells written again after their range check (alias folding, clamping, fallback):
+        record the value the cell holds when the section is returned."""
+        for (n, k), rules in list(self.live.items()):
+            if name is not None and n != name:
+                continue
+            cur = self.subs.get((n, k))
+            for r in rules:
+                if r["rewritten"] and cur is not r["val"] and isinstance(cur, NE) and cur.co() == r["co"]:
+                    r["final"] = cur
+            del self.live[(n, k)]
+
     def assign_name(self, name: str, value):
+        if name in self.secs:
+            self.finalize(name)
         root = self.root_expr(value)
         self.secs.pop(name, None)
         loc = root if root is not None else self.section_expr(value)
@@ -505,6 +520,8 @@ class Walker:
                         self.subs[key] = UNKNOWN
                     return
                 self.touched.add(tuple(s[1].path) + (k,))
+                for r in self.live.get((s[0], k), []):
+                    r["rewritten"] = True      # a write to a cell after its range check
                 self.subs[(s[0], k)] = self.sym(value)
         elif isinstance(tgt, ast.Tuple):
             for t in tgt.elts:
@@ -513,10 +530,11 @@ class Walker:
                     self.secs.pop(t.id, None)
 
     def snapshot(self):
-        return dict(self.secs), dict(self.vals), dict(self.subs)
+        return dict(self.secs), dict(self.vals), dict(self.subs), {k: list(v) for k, v in self.live.items()}
 
     def restore(self, snap):
         self.secs, self.vals, self.subs = dict(snap[0]), dict(snap[1]), dict(snap[2])
+        self.live = {k: list(v) for k, v in snap[3].items()}
 
     def merge(self, c, pre, a, b):
         """state after `if c: A else: B` from the two branch states."""
@@ -540,6 +558,13 @@ class Walker:
                 else:
                     dst[k] = UNKNOWN
         self.secs, self.vals, self.subs = secs, vals, subs
+        live: Dict[Tuple[str, str], List[dict]] = {}
+        for side in (a[3], b[3]):
+            for k, rs in side.items():
+                for r in rs:
+                    if not any(r is x for x in live.setdefault(k, [])):
+                        live[k].append(r)
+        self.live = live
 
     def block(self, stmts: List[ast.stmt]):
         i = 0
@@ -713,8 +738,12 @@ class Walker:
                     sg = v.single_get()
                     if sg is not None and not out:
                         out = list(sg[0].path) + [sg[1]]
-                    self.rules.append({"kind": "num", "path": path, "msg": msg, "conds": conds, "val": v, "co": co,
-                                       "guard": g, "doc": parse_doc(msg), "out": out, "line": st.lineno})
+                    rule = {"kind": "num", "path": path, "msg": msg, "conds": conds, "val": v, "co": co,
+                            "guard": g, "doc": parse_doc(msg), "out": out, "line": st.lineno,
+                            "final": None, "rewritten": False}
+                    self.rules.append(rule)
+                    if isinstance(subj, ast.Subscript) and self.sec_of(subj.value):
+                        self.live.setdefault((self.sec_of(subj.value)[0], self.const(subj.slice)), []).append(rule)
                 else:
                     sg = v.ve.single_get()
                     if sg is not None and not out:
@@ -807,6 +836,10 @@ def translate(repo: Path) -> dict:
     w = Walker(mod, consts)
     w.param = fn.args.args[0].arg
     w.block(fn.body)
+    w.finalize()
+    for r in w.rules:
+        if r["kind"] == "num":
+            r["aliases"] = alias_paths(r)
     total_err = sum(1 for n in ast.walk(fn) if isinstance(n, ast.Call) and isinstance(n.func, ast.Name) and n.func.id == "_err")
     return {"consts": consts, "rules": w.rules, "opaque": w.opaque, "hash_sites": w.hash_sites,
             "facts": suggest_facts(mod), "total_err_sites": total_err, "touched": w.touched}
@@ -826,7 +859,10 @@ def rule_lean(r: dict) -> str:
         return (f"  -- line {r['line']}: {r['path']} {r['msg']}\n"
                 f"  .num ⟨{lean_str(r['path'])}, {lean_str(r['msg'])}, {conds_lean(r['conds'])},\n"
                 f"    {r['val'].lean()},\n"
-                f"    .{r['co']}, {ge_lean(r['guard'])}, {doc_lean(r['doc'])}, {lean_strs(r['out'])}⟩")
+                f"    .{r['co']}, {ge_lean(r['guard'])}, {doc_lean(r['doc'])}, {lean_strs(r['out'])},\n"
+                f"    {'none' if r.get('final') is None else '(some ' + r['final'].lean() + ')'}, "
+                f"{'true' if r.get('rewritten') else 'false'}, "
+                f"[{', '.join(lean_strs(a) for a in r.get('aliases', []))}]⟩")
     return (f"  -- line {r['line']}: {r['path']} {r['msg']}\n"
             f"  .enum ⟨{lean_str(r['path'])}, {lean_str(r['msg'])}, {conds_lean(r['conds'])},\n"
             f"    {r['val'].lean()},\n"
@@ -863,6 +899,35 @@ def known_sections(t: dict) -> List[Tuple[str, ...]]:
                 if p:
                     secs.add(p)
     return sorted(secs)
+
+
+def _gets(x):
+    """(section path, key) of every `.get` a value expression reads."""
+    if isinstance(x, NE):
+        if x.kind == "co":
+            yield from _gets(x.a[1])
+        else:
+            yield from _gets(x.a[1])
+            yield from _gets(x.a[2])
+    elif isinstance(x, VE):
+        if x.kind == "get":
+            yield tuple(x.a[0].path) + (x.a[1],)
+        else:
+            yield from _gets(x.a[1])
+            yield from _gets(x.a[2])
+
+
+def alias_paths(r: dict) -> List[Tuple[str, ...]]:
+    """Other keys whose value can end up in the rule's canonical leaf (alias folding)."""
+    canon = tuple(r["out"])
+    seen: List[Tuple[str, ...]] = []
+    for x in (r["val"], r.get("final")):
+        if x is None:
+            continue
+        for p in _gets(x):
+            if p != canon and p not in seen:
+                seen.append(p)
+    return seen if canon else []
 
 
 def emit(t: dict) -> str:
@@ -909,7 +974,10 @@ def summary(t: dict) -> dict:
     return {"rules": kinds, "opaque_sites": len(t["opaque"]), "err_sites": t["total_err_sites"],
             "hash_order_sites": len(t["hash_sites"]), "suggest_sorted": t["facts"]["sorted"],
             "suggest_strwrap": t["facts"]["strwrap"],
-            "undocumented_num_rules": [r["path"] for r in t["rules"] if r["kind"] == "num" and r["doc"] is None]}
+            "undocumented_num_rules": [r["path"] for r in t["rules"] if r["kind"] == "num" and r["doc"] is None],
+            "rewritten_after_check": [r["path"] for r in t["rules"] if r["kind"] == "num" and r.get("rewritten")],
+            "alias_rules": {r["path"]: [".".join(a) for a in r["aliases"]] for r in t["rules"]
+                            if r["kind"] == "num" and r.get("aliases")}}
 
 
 def typed_messages(t: dict) -> List[str]:
